@@ -1,5 +1,5 @@
 import MxlVerif.Model.C07
-import MxlVerif.Lemmas.C07Main
+import MxlVerif.Lemmas.C07MainV
 import MxlVerif.Lemmas.C07Witness
 import MxlVerif.Lemmas.C07Free
 namespace Mxl.C07
@@ -42,14 +42,14 @@ theorem C07_julia_unpack_invalid : (templateOf .jl).unpack .jl = .invalid := by 
     at any time and state returns exactly what `Model.__call__` returns — including when the model's cache
     cannot be built (same error) — for every content satisfying the decidable hypothesis `okC`:
     no surrogates / data, every variable has an equation and stoichiometries mention variables only (excludes
-    F-C07-3), parameters are plain (excludes F-C07-5), names are distinct (what `Model` enforces) and not of
-    the form `d<x>dt`.  Two further restrictions are limits of this proof, not finding classes, and are
-    covered by the correspondence harness only: variables are not initial assignments, stoichiometric
+    F-C07-3), parameters are plain (excludes F-C07-5; variables may be defined by initial assignments), names
+    are distinct (what `Model` enforces) and not of the form `d<x>dt`.  One further restriction is a limit of
+    this proof, not a finding class, and is covered by the correspondence harness only: stoichiometric
     coefficients are numbers. -/
 theorem C07_equiv_partial (c : Content) (L : Lang) (t : Rat) (xs : List Rat)
     (hL : L ≠ .jl) (hok : okC c = true) (hxs : xs.length = c.vars.length) :
     genRun [] c L [] t xs [] = callRhs c t xs :=
-  equiv_main c L t xs hL (Ok.of_okC hok) hxs
+  equiv_mainV c L t xs hL (OkV.of_okC hok) hxs
 
 /-- **Free parameters.**  Requested free parameters become extra inputs: calling the generated function with
     values `ps` for them returns what the model returns after those parameters are set to `ps`
@@ -57,7 +57,7 @@ theorem C07_equiv_partial (c : Content) (L : Lang) (t : Rat) (xs : List Rat)
 theorem C07_equiv_free_partial (c : Content) (L : Lang) (free : List Name) (t : Rat) (xs ps : List Rat)
     (hL : L ≠ .jl) (hok : okC c = true) (hf : freeOkB c free ps = true) (hxs : xs.length = c.vars.length) :
     genRun [] c L free t xs ps = callRhs (setPars c free ps) t xs :=
-  equiv_free c L free t xs ps hL (Ok.of_okC hok) (FreeOk.of_B hf) hxs
+  equiv_free c L free t xs ps hL (OkV.of_okC hok) (FreeOk.of_B hf) hxs
 
 example : freeOkB wOk ["k"] [5] = true
     ∧ resEq (genRun [] wOk .ts ["k"] 1 [3, 5] [5]) (callRhs (setPars wOk ["k"] [5]) 1 [3, 5]) = true
@@ -68,6 +68,10 @@ example : freeOkB wOk ["k"] [5] = true
 example : okC wOk = true := by decide +kernel
 
 example : resEq (genRun [] wOk .rs [] 1 [3, 5] []) (callRhs wOk 1 [3, 5]) = true := by decide +kernel
+
+/-- … and by one whose second variable is defined by an initial assignment -/
+example : okC wOkIA = true ∧ resEq (genRun [] wOkIA .py [] 1 [3, 5] []) (callRhs wOkIA 1 [3, 5]) = true := by
+  decide +kernel
 
 /-- **The full statement is false of the unchanged code.**  F-C07-3: a variable without a reaction is
     missing from the returned sequence (Python / TypeScript), and the Rust return type no longer matches. -/
